@@ -177,6 +177,35 @@ package ech
 // noSlack: the message fills its buffer and nothing follows the extension block.
 //@ pure noSlack(m []byte) bool = len(m) == 4 + be24(m, 1) && chExStart(m) + chExLen(m) == len(m)
 
+// Outer-extension substitution (draft-ietf-tls-esni 5.1 and Appendix B), as spec functions over extension lists:
+//   firstFrom(O, t, s)  = least index >= s of an extension of type t in O, or len(O) when there is none
+//   splicePos(O, d, j)  = position in O matched by the j-th reference of the marker data d (d[0] = 2k, then k uint16 types):
+//                         each reference is searched from just after the previous match (in order, no repetition)
+//@ purerec firstFrom(O []extension, t int, s int) int = ite(s >= len(O), len(O), ite(int(O[s].Type) == t, s, firstFrom(O, t, s+1)))
+//@ purerec splicePos(O []extension, d []byte, j int) int = firstFrom(O, be16(d, 1 + 2*j), ite(j <= 0, 0, splicePos(O, d, j-1) + 1))
+
+// firstFrom returns an index in [s, len(O)]; if it is below len(O) the extension there has type t, and none before it (from s) has.
+//@ lemma firstFromProps(O []extension, t int, s int) induct s upto len(O) trigger firstFrom(O, t, s) = 0 <= s && s <= len(O) ==>
+//@     s <= firstFrom(O, t, s) && firstFrom(O, t, s) <= len(O) && (firstFrom(O, t, s) < len(O) ==> int(O[firstFrom(O, t, s)].Type) == t) &&
+//@     forall(u, s, firstFrom(O, t, s), int(O[u].Type) != t, trig(O[u]))
+
+// extOff(E, i): offset of the i-th extension inside an encoded extension block holding exactly the list E.
+//@ purerec extOff(E []extension, i int) int = ite(i <= 0, 0, extOff(E, i-1) + 4 + len(E[i-1].Data))
+// serX(c): offset, inside the record that marshal produces for c, of the first extension.
+//@ pure serX(c *clientHello) int = 17 + len(c.Random) + len(c.LegacySessionID) + len(c.CipherSuite) + len(c.LegacyCompressionMethods)
+// serOf(c, out): out is the TLS record carrying exactly the ClientHello c (RFC 8446 4.1.2 layout), nothing else.
+//@ pure serOf(c *clientHello, out []byte) bool = int(out[0]) == 0x16 && be16(out, 1) == int(c.LegacyVersion) && be16(out, 3) == len(out) - 5 &&
+//@     int(out[5]) == 1 && be24(out, 6) == len(out) - 9 && be16(out, 9) == int(c.LegacyVersion) && bytesEq(window(out, 11, len(c.Random)), c.Random) &&
+//@     int(out[11 + len(c.Random)]) == len(c.LegacySessionID) && bytesEq(window(out, 12 + len(c.Random), len(c.LegacySessionID)), c.LegacySessionID) &&
+//@     be16(out, 12 + len(c.Random) + len(c.LegacySessionID)) == len(c.CipherSuite) &&
+//@     bytesEq(window(out, 14 + len(c.Random) + len(c.LegacySessionID), len(c.CipherSuite)), c.CipherSuite) &&
+//@     int(out[14 + len(c.Random) + len(c.LegacySessionID) + len(c.CipherSuite)]) == len(c.LegacyCompressionMethods) &&
+//@     bytesEq(window(out, 15 + len(c.Random) + len(c.LegacySessionID) + len(c.CipherSuite), len(c.LegacyCompressionMethods)), c.LegacyCompressionMethods) &&
+//@     be16(out, serX(c) - 2) == extOff(c.Extensions, len(c.Extensions)) && len(out) == serX(c) + extOff(c.Extensions, len(c.Extensions)) &&
+//@     forall(i, 0, len(c.Extensions), be16(out, serX(c) + extOff(c.Extensions, i)) == int(c.Extensions[i].Type) &&
+//@         be16(out, serX(c) + extOff(c.Extensions, i) + 2) == len(c.Extensions[i].Data) &&
+//@         bytesEq(window(out, serX(c) + extOff(c.Extensions, i) + 4, len(c.Extensions[i].Data)), c.Extensions[i].Data), trig(c.Extensions[i]))
+
 // echInv: what parseExtensions establishes about the ECH extension(s); needed by marshal(aad).
 //@ pure echInv(c *clientHello) bool = forall(i, 0, len(c.Extensions), c.Extensions[i].Type == 0xfe0d ==> c.echExt != nil && len(c.echExt.Payload) <= len(c.Extensions[i].Data))
 
@@ -195,6 +224,15 @@ package ech
 //@   ensures[S:size] err == nil ==> len(out) >= 9 && len(out) <= 5 + 65535
 //@   loop 1 "range c.Extensions"
 //@     invariant[grows] len(bbuf(b)) >= entry(len(bbuf(b)))
+//@     invariant[err-sticky] entry(berr(b)) ==> berr(b)
+//@   behavior layout
+//@     assumes !aad
+//@     ensures[L:layout] err == nil ==> serOf(c, out)
+//@     loop 1 "range c.Extensions"
+//@       invariant[L:pos] len(bbuf(b)) == serX(c) + extOff(c.Extensions, ri1) && extOff(c.Extensions, ri1) >= 0
+//@       invariant[L:item-type] forall(i, 0, ri1, be16(bbuf(b), serX(c) + extOff(c.Extensions, i)) == int(c.Extensions[i].Type) && extOff(c.Extensions, i) >= 0, trig(c.Extensions[i]))
+//@       invariant[L:item-len] !berr(b) ==> forall(i, 0, ri1, be16(bbuf(b), serX(c) + extOff(c.Extensions, i) + 2) == len(c.Extensions[i].Data), trig(c.Extensions[i]))
+//@       invariant[L:item-data] forall(i, 0, ri1, bytesEq(window(bbuf(b), serX(c) + extOff(c.Extensions, i) + 4, len(c.Extensions[i].Data)), c.Extensions[i].Data), trig(c.Extensions[i]))
 //@   behavior passthrough
 //@     assumes !aad && parsedFrom(c, m) && noSlack(m)
 //@     ensures[L:passthrough] err == nil ==> len(out) == 5 + len(m) && forall(j, 5, len(out), out[j] == m[j-5])
@@ -300,6 +338,7 @@ package ech
 //@   modifies c.hpkeCtx, hseq, hid
 //@   allocates clientHello, echExt, hpke.Receipient
 //@   terminates
+//@   use firstFromProps
 //@   ensures[S:ctx] inner != nil ==> c.hpkeCtx != nil && h.echExt != nil && fresh(inner)
 //@   ensures[F:errclass] err != nil && err != errNoMatch ==> alertCode(err) == 10 || alertCode(err) == 47 || alertCode(err) == 50 || alertCode(err) == 51 || alertCode(err) == 109 || liberr(err)
 //@   ensures[F:nomatch] err == errNoMatch ==> inner == nil && !isRetry
@@ -310,6 +349,13 @@ package ech
 //@   ensures[F:retry-accept] isRetry && inner != nil ==> h.echExt.ConfigID == c.outer.echExt.ConfigID && h.echExt.CipherSuite == c.outer.echExt.CipherSuite && len(h.echExt.Enc) == 0
 //@   ensures[F:fallback] !isRetry && (!h.tls13 || h.echExt == nil || len(c.keys) == 0) ==> inner == nil && err == nil && c.hpkeCtx == nil
 //@   ensures[F:inner-rules] inner != nil ==> inner.tls13 && h.tls13 && h.echExt != nil && len(c.keys) > 0
+//@   ensures[F:public-name] inner != nil ==> exists(i, 0, len(c.keys), cfgValid(c.keys[i].Config) && int(c.keys[i].Config[4]) == int(h.echExt.ConfigID) &&
+//@       bytesEq(window(c.keys[i].Config, cfgPnOff(c.keys[i].Config), cfgPnLen(c.keys[i].Config)), h.ServerName))
+//@   check[L:spliced-final] inner != nil ==> inner.Extensions == newExt
+//@   check[L:session-id] inner != nil ==> inner.LegacySessionID == h.LegacySessionID
+//@   check[L:head-from-payload] inner != nil ==> int(inner.LegacyVersion) == be16(msg, 4) && bytesEq(inner.Random, window(msg, 6, 32)) &&
+//@       bytesEq(inner.CipherSuite, window(msg, chCsOff(msg) + 2, chCsLen(msg))) && bytesEq(inner.LegacyCompressionMethods, window(msg, chCmOff(msg) + 1, chCmLen(msg)))
+//@   check[L:payload-reframed] inner != nil ==> len(msg) == 4 + len(innerBytes) && int(msg[0]) == 1 && be24(msg, 1) == len(innerBytes) && bytesEq(window(msg, 4, len(innerBytes)), innerBytes)
 //@   check[F:padding-zero] inner != nil ==> forall(j, offset(msg) + chExStart(msg) + chExLen(msg), offset(msg) + len(msg), mem(msg, j) == 0)
 //@   ensures[F:seq-first] inner != nil && !isRetry ==> hseq(c.hpkeCtx) == 1
 //@   ensures[F:seq-retry] isRetry ==> c.hpkeCtx == old(c.hpkeCtx) && (inner != nil ==> hseq(c.hpkeCtx) == 2) && 1 <= hseq(c.hpkeCtx) && hseq(c.hpkeCtx) <= 2
@@ -317,10 +363,24 @@ package ech
 //@     invariant[no-ctx-yet] !isRetry ==> c.hpkeCtx == nil
 //@     invariant[ctx-kept] isRetry ==> c.hpkeCtx == old(c.hpkeCtx) && hseq(c.hpkeCtx) == 1
 //@     invariant[not-opened] isnil(innerBytes)
+//@   loop 2 "range inner.Extensions"
+//@     invariant[L:no-marker-yet] !eoeSeen ==> firstFrom(rx2, 0xfd00, 0) >= ri2 && len(newExt) == ri2 && forall(t, 0, ri2, newExt[t] == rx2[t], trig(newExt[t]))
+//@     invariant[L:spliced] eoeSeen ==> firstFrom(rx2, 0xfd00, 0) < ri2 && 2*(len(newExt) - ri2 + 1) == int(rx2[firstFrom(rx2, 0xfd00, 0)].Data[0]) &&
+//@         forall(t, 0, firstFrom(rx2, 0xfd00, 0), newExt[t] == rx2[t], trig(newExt[t])) &&
+//@         forall(j, 0, len(newExt) - ri2 + 1, splicePos(h.Extensions, rx2[firstFrom(rx2, 0xfd00, 0)].Data, j) < len(h.Extensions) &&
+//@             newExt[firstFrom(rx2, 0xfd00, 0) + j] == h.Extensions[splicePos(h.Extensions, rx2[firstFrom(rx2, 0xfd00, 0)].Data, j)], trig(splicePos(h.Extensions, rx2[firstFrom(rx2, 0xfd00, 0)].Data, j))) &&
+//@         forall(t, firstFrom(rx2, 0xfd00, 0) + 1, ri2, newExt[t + len(newExt) - ri2] == rx2[t] && int(rx2[t].Type) != 0xfd00, trig(rx2[t]))
 //@   loop 3 "!want.Empty()"
 //@     invariant 0 <= p && p <= len(h.Extensions)
+//@     invariant[L:want] sameArray(want, ext.Data) && offset(want) >= offset(ext.Data) + 1 && offset(want) + len(want) == offset(ext.Data) + 1 + int(ext.Data[0]) && (offset(want) - offset(ext.Data) - 1) % 2 == 0
+//@     invariant[L:cursor] p == ite(offset(want) - offset(ext.Data) - 1 <= 0, 0, splicePos(h.Extensions, ext.Data, (offset(want) - offset(ext.Data) - 1)/2 - 1) + 1)
+//@     invariant[L:appended] len(newExt) == entry(len(newExt)) + (offset(want) - offset(ext.Data) - 1)/2 &&
+//@         forall(u, 0, (offset(want) - offset(ext.Data) - 1)/2, splicePos(h.Extensions, ext.Data, u) < len(h.Extensions) &&
+//@             newExt[entry(len(newExt)) + u] == h.Extensions[splicePos(h.Extensions, ext.Data, u)], trig(splicePos(h.Extensions, ext.Data, u))) &&
+//@         forall(t, 0, entry(len(newExt)), newExt[t] == entry(newExt)[t], trig(newExt[t]))
 //@   loop 4 "p < len(h.Extensions) && h.Extensions[p].Type != extType"
 //@     invariant 0 <= p && p <= len(h.Extensions)
+//@     invariant[L:scan] firstFrom(h.Extensions, int(extType), p) == firstFrom(h.Extensions, int(extType), entry(p))
 //@     decreases len(h.Extensions) - p
 
 //@ func Conn.handleClientHello returns (outer, inner, err)
@@ -383,5 +443,7 @@ package ech
 //@   bind "outConn.outer.Marshal()" m = record[5:]
 //@   check[L:passthrough] err == nil && outConn.inner == nil && noSlack(record[5:]) ==> outConn.readPassthrough && outConn.writePassthrough &&
 //@       len(outConn.readBuf) == len(record) && forall(j, 5, len(record), outConn.readBuf[j] == record[j]) && int(outConn.readBuf[0]) == 0x16 && be16(outConn.readBuf, 3) == be16(record, 3)
+//@   check[L:inner-record] err == nil && outConn.inner != nil ==> serOf(outConn.inner, outConn.readBuf) && !outConn.readPassthrough
+//@   check[L:outer-record] err == nil && outConn.inner == nil ==> serOf(outConn.outer, outConn.readBuf)
 //@   check[L:record-is-stream] err == nil ==> len(record) == rpos(conn) - old(rpos(conn)) && forall(j, old(rpos(conn)), rpos(conn), inAt(conn, j) == record[j - old(rpos(conn))])
 //@   ensures[F:errclass] err != nil ==> alertCode(err) == 10 || alertCode(err) == 47 || alertCode(err) == 50 || alertCode(err) == 51 || alertCode(err) == 109 || liberr(err)
